@@ -617,7 +617,7 @@ class Vector():
 			if len(self) != len(key):
 				raise ValueError(f"Boolean mask length mismatch: {len(self)} != {len(key)}")
 			return self.copy((x for x, y in zip(self, key, strict=True) if y), name=self._name)
-		if isinstance(key, list) and {type(e) for e in key} == {bool}:
+		if isinstance(key, list) and {type(e) for e in key} <= {bool}:
 			if len(self) != len(key):
 				raise ValueError(f"Boolean mask length mismatch: {len(self)} != {len(key)}")
 			return self.copy((x for x, y in zip(self, key, strict=True) if y), name=self._name)
